@@ -202,7 +202,7 @@ def run(ctx: Ctx, rs: RuleSet, tier: str):
   targets = [f'{S}.materialize.materialize_defaults.traverse']
   n_uses = 0
   for q in targets:
-    f = ctx.func(q)
+    f = roles.stable_view(ctx.func(q))
     g, loops = param_name_storage_uses(ctx, f)
     if not loops:
       raise AnalysisError(f'{q}: no loop over the signature parameters found')
@@ -219,7 +219,8 @@ def run(ctx: Ctx, rs: RuleSet, tier: str):
                  'the lookup misses the stored value / the assignment is '
                  'rejected', ctx.loc(f, e))
   # materialize_defaults stores the default itself, only when unset
-  f = ctx.func(f'{S}.materialize.materialize_defaults.traverse')
+  f = roles.stable_view(
+      ctx.func(f'{S}.materialize.materialize_defaults.traverse'))
   g = ctx.cfg(f)
   stores = []
   for n in g.nodes():
